@@ -138,6 +138,16 @@ def run(case, ctx, res):
         res.nontrivial(case["schema"], case["prefix"], case["ops"])
 
 
+def _caused_by_injection(exc):
+    seen = 0
+    while exc is not None and seen < 10:
+        if isinstance(exc, InjectedFault):
+            return True
+        exc = exc.__cause__ or exc.__context__
+        seen += 1
+    return False
+
+
 def _failpoint_runs(drv, ctx, res, op, idx):
     """Inject an exception at line events inside the format modules / include field while a good document is being
     loaded: a simulated parse failure.  The load must either complete or leave the state untouched."""
@@ -185,6 +195,11 @@ def _failpoint_runs(drv, ctx, res, op, idx):
         res.count("failpoint_injections")
         if outcome != "raised":
             res.count("failpoint_swallowed_load_completed")
+            continue
+        if not _caused_by_injection(val):
+            # the library swallowed the injected fault (bare except in a parser), went on with another parse result and
+            # failed later for another reason: a tree that parses but fails validation half way is outside the statement
+            res.count("failpoint_swallowed_other_error_later")
             continue
         res.count("failpoint_injections_raised")
         res.count("same_checks")
